@@ -6,7 +6,7 @@ Import ListNotations.
 Local Open Scope Z_scope.
 
 Definition lworld_of (p : pstate) : lworld :=
-  match p with PNone => LNone | PRunning => LRun | PExited _ => LExit | PKilled => LKill end.
+  match p with PNone => LNone | PRunning => LRun | PStubborn => LStub | PExited _ => LExit | PKilled => LKill end.
 Definition uids (l : list tdesc) : list Z := map d_uid l.
 Definition later (s : state) : list tdesc := concat (i_rest s).
 Definition cnt (u : Z) (l : list Z) : nat := length (filter (Z.eqb u) l).
@@ -70,7 +70,7 @@ Definition tpending (s : state) : list Z :=
 
 Record wf (k : lconst) (u : Z) (s : state) : Prop := mkWfS {
   wf_nodup : NoDup (uids (ipending s));
-  wf_desc : forall x, In x (ipending s) -> d_uid x = u -> d_fault x = k_fault k /\ d_to x = k_to k;
+  wf_desc : forall x, In x (ipending s) -> d_uid x = u -> d_fault x = k_fault k /\ d_to x = k_to k /\ d_stub x = k_stub k;
   wf_named : k_named k = false -> ~ In u (cpending s);
   wf_to : k_to k = false -> ~ In u (tpending s);
   wf_hto : forall x r, ipc_ s = ITask ITHto x r -> d_to x = true }.
